@@ -71,7 +71,10 @@ theorem sortedBuckets_perm (ps : List Proc) : ((sortedBuckets ps).flatten).Perm 
 def allCpus (all : List (List Proc)) : List Int := (all.map cpusOf).flatten
 
 theorem allCpus_eq (all : List (List Proc)) : allCpus all = cpusOf all.flatten := by
-  simp [allCpus, cpusOf, List.map_flatten]
+  unfold allCpus
+  show _ = List.map (fun p : Proc => p.cpu) all.flatten
+  rw [List.map_flatten]
+  rfl
 
 theorem mem_allCpus {all : List (List Proc)} {b : List Proc} {x : Int} (hb : b ∈ all) (hx : x ∈ cpusOf b) :
     x ∈ allCpus all :=
@@ -333,7 +336,8 @@ theorem sweep2_need_le : ∀ (rest : List (List Proc)) (st : St), (sweep2 rest s
     split
     · exact Int.le_refl _
     · split
-      · have := sweep2_need_le bs { need := st.need - 1, out := st.out ++ [_] }
+      · rename_i x _
+        have := sweep2_need_le bs { need := st.need - 1, out := st.out ++ [x] }
         simp only at this
         omega
       · exact sweep2_need_le bs st
@@ -434,15 +438,17 @@ theorem policy_spec (k : Int) (ps : List Proc) (hnd : (cpusOf ps).Nodup) (hk0 : 
   have hperm := sortedBuckets_perm ps
   have hall : (allCpus (sortedBuckets ps)).Nodup := by
     rw [allCpus_eq]
-    exact (hperm.map (·.cpu)).nodup_iff.mpr hnd
+    unfold cpusOf
+    exact (hperm.map _).nodup_iff.mpr hnd
   have hlen : (allCpus (sortedBuckets ps)).length = ps.length := by
-    rw [allCpus_eq]; simp [cpusOf, hperm.length_eq]
+    rw [allCpus_eq]; unfold cpusOf; rw [List.length_map]; exact hperm.length_eq
   have hmem : ∀ x, x ∈ allCpus (sortedBuckets ps) → x ∈ cpusOf ps := by
     intro x hx
     rw [allCpus_eq] at hx
-    exact ((hperm.map (·.cpu)).mem_iff).mp hx
+    unfold cpusOf at hx ⊢
+    exact ((hperm.map _).mem_iff).mp hx
   have h0 : Inv1 (sortedBuckets ps) k { need := k, out := [] } :=
-    { nodup := List.nodup_nil, sub := by intro x hx; cases hx, cnt := by simp, nn := hk0,
+    { nodup := List.nodup_nil, sub := (by intro x hx; cases hx), cnt := (by simp), nn := hk0,
       pair := fun b _ => pairInv_nil_used b }
   have h1 := pass1_inv hall (k.toNat + 1) _ h0
   have hrot : ∀ b ∈ rot (pass1 (sortedBuckets ps) (k.toNat + 1) { need := k, out := [] }).2 (sortedBuckets ps),
